@@ -378,7 +378,29 @@ def history_job(job):
             if os.path.exists(os.path.join(out, "index_rel.wtml")):
                 compare_builder_with_disk(bld, out, part, "%s/after-faulted-run" % method, cfg)
                 check_wtml_vs_disk(out, part, "tile_fits-%s-after-faulted-run" % method, cfg)
-        part.states += 4  # empty directory, produced, produced-and-reused, half-written (description state)
+        # repeated with override after the input changed: the directory holds an earlier, DEEPER pyramid of the
+        # same path; override must leave exactly the new pyramid (tile levels = deepest populated layer)
+        if ninputs == 1:
+            shutil.rmtree(out, ignore_errors=True)
+            cfg = {"method": method, "inputs": 1, "history": ["fresh-on-a-larger-input", "override"]}
+            part.case(nontrivial=True)
+            transitions += 2
+            try:
+                with quiet():
+                    if method == "TAN":
+                        make_fits(paths[0], 600, 600, 1e-3, rot=15.0)
+                        toasty.tile_fits(paths[0], out_dir=out, tiling_method=tm, parallel=1)
+                        make_fits(paths[0], 200, 200, 1e-3, rot=15.0)
+                        od, bld = toasty.tile_fits(paths[0], out_dir=out, tiling_method=tm, parallel=1, override=True)
+                        make_fits(paths[0], 300, 280, 1e-3, rot=15.0)
+                    else:
+                        toasty.tile_fits(paths[0], out_dir=out, tiling_method=tm, parallel=1, start=4)
+                        od, bld = toasty.tile_fits(paths[0], out_dir=out, tiling_method=tm, parallel=1, override=True, start=2)
+                compare_builder_with_disk(bld, out, part, "%s/override-after-deeper" % method, cfg)
+                check_wtml_vs_disk(out, part, "tile_fits-%s-override-after-deeper" % method, cfg)
+            except Exception as e:
+                part.violation("tile_fits/raises:%s/%s" % (type(e).__name__, method), "%r: %r" % (cfg, e), cfg)
+        part.states += 5  # empty directory, produced, produced-and-reused, half-written, produced-from-another-input
         part.transitions += transitions
         part.executions += transitions
     part.sample({"method": method, "history_depth": maxdepth + 1})
